@@ -777,6 +777,9 @@ class Engine:
         if process_updates:
             for path, process in process_updates:
                 assoc_path(self.processes, path, process)
+                # a process that replaces another one at its path
+                # starts afresh, like any process entering now
+                self.front.pop(path, None)
                 self._add_process_path(process, path, {})
 
         if step_updates:
